@@ -443,6 +443,7 @@ def verify_function(repo: Repo, contracts: dict, target: str, prop_id: str, max_
     ex.spec_funcs = spec_funcs or {}
     ex.bounded_used = False
     ex.lenient = bool(c.options.get("lenient"))
+    State.qf_mode = bool(c.options.get("qf"))
     ex.protect = c.options.get("protect")
     ex.protect_hook = c.options.get("protect_hook")
     work = [[]]
